@@ -81,7 +81,12 @@ impl<'a, 'tcx> W<'a, 'tcx> {
             PatKind::Or { pats } => {
                 obj! {"k": J::s("or"), "pats": J::Arr(pats.iter().map(|q| self.pat(q)).collect())}
             },
-            PatKind::Slice { .. } | PatKind::Array { .. } => obj! {"k": J::s("slicepat")},
+            PatKind::Slice { prefix, slice, suffix } | PatKind::Array { prefix, slice, suffix } => obj! {
+                "k": J::s("slicepat"),
+                "prefix": J::Arr(prefix.iter().map(|q| self.pat(q)).collect()),
+                "slice": match slice { Some(q) => self.pat(q), None => J::Null },
+                "suffix": J::Arr(suffix.iter().map(|q| self.pat(q)).collect())
+            },
             PatKind::Never => obj! {"k": J::s("never")},
             PatKind::Error(_) => obj! {"k": J::s("error")},
         }
